@@ -160,50 +160,51 @@ Definition op_shape (b : Z) : opshape :=
   else if in_range 0xc6 0xc9 b then Sh2                 (* 110001x0/1, 1100100x + operand *)
   else Sh1.
 
+Infix "+++" := String.append (at level 60, right associativity).
 Definition gpr_names : list string :=
   ["r0"; "r1"; "r2"; "r3"; "r4"; "r5"; "r6"; "r7"; "r8"; "r9"; "r10"; "fp"; "ip"; "sp"; "lr"; "pc"].
 Definition gpr (i : Z) : string := nth (Z.to_nat i) gpr_names "".
-Definition braces (l : list string) : string := "{" ++ join ", " l ++ "}".
+Definition braces (l : list string) : string := "{" +++ join ", " l +++ "}".
 Definition zseq (start count : Z) : list Z :=
   map (fun i => start + Z.of_nat i) (seq 0 (Z.to_nat count)).
 (* registers start .. start+count of a 32-entry register file *)
 Definition reg_range (prefix : string) (start count : Z) : string :=
-  braces (map (fun i => prefix ++ dec_string i) (filter (fun i => i <? 32) (zseq start (count + 1)))).
+  braces (map (fun i => prefix +++ dec_string i) (filter (fun i => i <? 32) (zseq start (count + 1)))).
 (* the registers base+i for the set bits i < width of mask *)
 Definition under_mask (width base mask : Z) : list Z :=
   map (fun i => base + i) (filter (fun i => Z.odd (mask / 2 ^ i)) (zseq 0 width)).
 
 Definition text1 (b : Z) : string :=
-  if b <? 0x40 then "vsp = vsp + " ++ dec_string (4 * b + 4)                      (* 00xxxxxx *)
-  else if b <? 0x80 then "vsp = vsp - " ++ dec_string (4 * (b - 0x40) + 4)        (* 01xxxxxx *)
+  if b <? 0x40 then "vsp = vsp + " +++ dec_string (4 * b + 4)                      (* 00xxxxxx *)
+  else if b <? 0x80 then "vsp = vsp - " +++ dec_string (4 * (b - 0x40) + 4)        (* 01xxxxxx *)
   else if b =? 0x9d then "reserved (ARM MOVrr)"                                   (* 10011101 *)
   else if b =? 0x9f then "reserved (WiMMX MOVrr)"                                 (* 10011111 *)
-  else if in_range 0x90 0x9f b then "vsp = r" ++ dec_string (b - 0x90)            (* 1001nnnn *)
-  else if in_range 0xa0 0xa7 b then "pop " ++ braces (map gpr (zseq 4 (b - 0xa0 + 1)))           (* 10100nnn *)
-  else if in_range 0xa8 0xaf b then "pop " ++ braces (map gpr (zseq 4 (b - 0xa8 + 1) ++ [14]))   (* 10101nnn *)
+  else if in_range 0x90 0x9f b then "vsp = r" +++ dec_string (b - 0x90)            (* 1001nnnn *)
+  else if in_range 0xa0 0xa7 b then "pop " +++ braces (map gpr (zseq 4 (b - 0xa0 + 1)))           (* 10100nnn *)
+  else if in_range 0xa8 0xaf b then "pop " +++ braces (map gpr (zseq 4 (b - 0xa8 + 1) ++ [14]))   (* 10101nnn *)
   else if b =? 0xb0 then "finish"                                                 (* 10110000 *)
   else if in_range 0xb4 0xb7 b then "spare"                                       (* 101101nn *)
-  else if in_range 0xb8 0xbf b then "pop " ++ reg_range "d" 8 (b - 0xb8)          (* 10111nnn *)
-  else if in_range 0xc0 0xc5 b then "pop " ++ reg_range "wR" 10 (b - 0xc0)        (* 11000nnn, nnn != 6,7 *)
+  else if in_range 0xb8 0xbf b then "pop " +++ reg_range "d" 8 (b - 0xb8)          (* 10111nnn *)
+  else if in_range 0xc0 0xc5 b then "pop " +++ reg_range "wR" 10 (b - 0xc0)        (* 11000nnn, nnn != 6,7 *)
   else if in_range 0xca 0xcf b then "spare"                                       (* 11001yyy, yyy != 000,001 *)
-  else if in_range 0xd0 0xd7 b then "pop " ++ reg_range "d" 8 (b - 0xd0)          (* 11010nnn *)
+  else if in_range 0xd0 0xd7 b then "pop " +++ reg_range "d" 8 (b - 0xd0)          (* 11010nnn *)
   else "spare".                                                                   (* 11xxxyyy, xxx != 000,001,010 *)
 
 Definition text2 (b op : Z) : string :=
   if in_range 0x80 0x8f b then                                                    (* 1000iiii iiiiiiii *)
     let m := (b - 0x80) * 256 + op in
-    if m =? 0 then "refuse to unwind" else "pop " ++ braces (map gpr (under_mask 12 4 m))
+    if m =? 0 then "refuse to unwind" else "pop " +++ braces (map gpr (under_mask 12 4 m))
   else if b =? 0xb1 then                                                          (* 10110001 0000iiii *)
-    if (op =? 0) || (16 <=? op) then "spare" else "pop " ++ braces (map gpr (under_mask 4 0 op))
-  else if b =? 0xb3 then "pop " ++ reg_range "d" (op / 16) (op mod 16)            (* 10110011 sssscccc *)
-  else if b =? 0xc6 then "pop " ++ reg_range "wR" (op / 16) (op mod 16)           (* 11000110 sssscccc *)
+    if (op =? 0) || (16 <=? op) then "spare" else "pop " +++ braces (map gpr (under_mask 4 0 op))
+  else if b =? 0xb3 then "pop " +++ reg_range "d" (op / 16) (op mod 16)            (* 10110011 sssscccc *)
+  else if b =? 0xc6 then "pop " +++ reg_range "wR" (op / 16) (op mod 16)           (* 11000110 sssscccc *)
   else if b =? 0xc7 then                                                          (* 11000111 0000iiii *)
     if (op =? 0) || (16 <=? op) then "spare"
-    else "pop " ++ braces (map (fun i => "wCGR" ++ dec_string i) (under_mask 4 0 op))
-  else if b =? 0xc8 then "pop " ++ reg_range "d" (16 + op / 16) (op mod 16)       (* 11001000 sssscccc *)
-  else "pop " ++ reg_range "d" (op / 16) (op mod 16).                             (* 11001001 sssscccc *)
+    else "pop " +++ braces (map (fun i => "wCGR" +++ dec_string i) (under_mask 4 0 op))
+  else if b =? 0xc8 then "pop " +++ reg_range "d" (16 + op / 16) (op mod 16)       (* 11001000 sssscccc *)
+  else "pop " +++ reg_range "d" (op / 16) (op mod 16).                             (* 11001001 sssscccc *)
 
-Definition text_uleb (v : Z) : string := "vsp = vsp + " ++ dec_string (0x204 + 4 * v).  (* 10110010 uleb128 *)
+Definition text_uleb (v : Z) : string := "vsp = vsp + " +++ dec_string (0x204 + 4 * v).  (* 10110010 uleb128 *)
 
 (* instructions: first byte (+ operand); the uleb128 operand in any valid encoding *)
 Inductive insn : Type :=
